@@ -1439,7 +1439,8 @@ class UTPM(Ring, RawAlgorithmsMixIn):
 
     @classmethod
     def neg(cls, x, out = None):
-        return -1*x
+        # (a product with -1 turns an infinite complex entry into nan)
+        return cls(-x.data)
 
     @classmethod
     def add(cls, x, y , out = None):
